@@ -8,6 +8,7 @@ combinators (value typing of `Model/CData.lean`).  No imports beyond the value l
 -/
 import AutosarVerif.Model.CData
 import AutosarVerif.Model.Spec
+import AutosarVerif.Model.Lexer
 
 namespace AV.PM
 
@@ -20,6 +21,19 @@ structure PErr where
 structure PState where
   warnings : List PErr
   line : Nat
+  /-- the tokenizer (`ArxmlLexer`) -/
+  lx : Lex.LState := ⟨[], 1, none⟩
+  /-- `fileversion` (one bit; 4.0.1 until the file header has been read) -/
+  ver : Nat := 1
+  /-- `version_compatibility` -/
+  compat : Nat := 0xFFFFFFFF
+  /-- `identifiables`, `references`: (text, element id) in the order found -/
+  idents : List (Bytes × Nat) := []
+  refs : List (Bytes × Nat) := []
+  /-- ids for the elements created while parsing -/
+  nextId : Nat := 0
+  /-- `standalone` of the xml header -/
+  standalone : Option Bool := none
   deriving Repr
 
 /-- a parser computation: reads `strict`, threads the state, may fail hard -/
@@ -39,15 +53,40 @@ def optErr (kind : Nat) : P Unit := fun strict s =>
 /-- `return Err(self.error(e))` -/
 def hardErr {α : Type} (kind : Nat) : P α := fun _ s => (.error ⟨kind, s.line⟩, s)
 
-/-- error kinds (discriminants of the `ArxmlParserError` variants used by the value layer) -/
-def kInvalidXmlEntity : Nat := 1
-def kStringValueTooLong : Nat := 2
-def kRegexMatchError : Nat := 3
-def kUtf8Error : Nat := 4
-def kInvalidNumber : Nat := 5
-def kUnknownEnumItem : Nat := 6
-def kInvalidEnumItem : Nat := 7
-def kEnumItemVersionError : Nat := 8
+/-- error kinds = position of the variant in `enum ArxmlParserError` -/
+def kInvalidArxmlFileHeader : Nat := 0
+def kUnexpectedXmlFileHeader : Nat := 1
+def kUnknownAutosarVersion : Nat := 2
+def kInvalidAutosarVersion : Nat := 3
+def kIncorrectBeginElement : Nat := 4
+def kInvalidBeginElement : Nat := 5
+def kIncorrectEndElement : Nat := 6
+def kInvalidEndElement : Nat := 7
+def kElementChoiceConflict : Nat := 8
+def kElementVersionError : Nat := 9
+def kTooManySubElements : Nat := 10
+def kRequiredSubelementMissing : Nat := 11
+def kAttributeValueError : Nat := 12
+def kUnknownAttributeError : Nat := 13
+def kAttributeVersionError : Nat := 14
+def kRequiredAttributeMissing : Nat := 15
+def kCharacterContentForbidden : Nat := 16
+def kEnumItemVersionError : Nat := 17
+def kUnknownEnumItem : Nat := 18
+def kInvalidEnumItem : Nat := 19
+def kStringValueTooLong : Nat := 20
+def kRegexMatchError : Nat := 21
+def kUtf8Error : Nat := 22
+def kUnexpectedEndOfFile : Nat := 23
+def kInvalidNumber : Nat := 24
+def kAdditionalDataError : Nat := 25
+def kInvalidXmlEntity : Nat := 26
+/-- errors of the tokenizer are `100 + ` the position in `LexErr`; 998 = a Rust panic; 999 = outside the model -/
+def kLexBase : Nat := 100
+/-- the step budget of the model ran out (never: `Lemmas/ParserTotal.lean`) -/
+def kFuel : Nat := 997
+def kPanic : Nat := 998
+def kUnsupported : Nat := 999
 
 /-- `unescape_string`: entities decoded; an invalid entity is an optional error and the `&` is kept -/
 def unescapeP : Nat → Bytes → P Bytes
